@@ -118,6 +118,12 @@ Definition hash_changed (before after : list edge_view) (v : edge_view) : bool :
   | None => true
   end.
 
+(* the clause is about the fields a point's checksum covers (time, type, key, text, value): a change of the tombstone
+   counter, the data payload or the origin alone need not show in any hash *)
+Definition strip_uncovered (p : point) : point :=
+  mkPoint (p_type p) (p_key p) (p_time p) (p_val p) (p_text p) [] 0%Z [].
+Definition covered_eqb (a b : list point) : bool := points_eqb (map strip_uncovered a) (map strip_uncovered b).
+
 Definition prop_step (before : list edge_view) (t : step) : bool :=
   if negb (t_reply t =? 0) then true else
   let after := t_dump t in
@@ -125,7 +131,7 @@ Definition prop_step (before : list edge_view) (t : step) : bool :=
   | NodePts id _ =>
       let changed := existsb (fun v => bytes_eqb (v_down v) id &&
                                        match find_view before (v_up v) (v_down v) with
-                                       | Some b => negb (points_eqb (v_npts b) (v_npts v))
+                                       | Some b => negb (covered_eqb (v_npts b) (v_npts v))
                                        | None => false end) after in
       if changed then
         let anc := ancestors after false id in
@@ -134,7 +140,7 @@ Definition prop_step (before : list edge_view) (t : step) : bool :=
   | EdgePts id par _ =>
       match find_view before par id, find_view after par id with
       | Some b, Some a =>
-          if points_eqb (v_epts b) (v_epts a) then true
+          if covered_eqb (v_epts b) (v_epts a) then true
           else
             let anc := ancestors after false par in
             negb (v_hash b =? v_hash a) &&
